@@ -80,3 +80,11 @@ func newNDWriter(t *testing.T, path string) *ndWriter {
 
 func (n *ndWriter) Write(v any) { n.enc.Encode(v) }
 func (n *ndWriter) Close()      { n.w.Flush(); n.f.Close() }
+
+// exitNow ends the driver at once. Under `go test` a call of os.Exit(0) panics (-test.paniconexit0); made from a goroutine
+// of its own, that panic cannot be swallowed by a scenario's recover and the process really ends (everything written so far
+// has been flushed by the caller).
+func exitNow() {
+	go os.Exit(0)
+	select {}
+}
